@@ -1,6 +1,7 @@
 import Lean.Data.Json
 import AFModel.Migrate
 import AFModel.MigrateRows
+import AFModel.MigrateFeat
 import AFModel.Generated.C19
 
 /-! Driver of C19: runs `AF.Migrate.runHistory` over the step table generated from the repository. -/
@@ -183,6 +184,14 @@ def handleC19 (j : Json) : Except String Json := do
       ("file_wf", Json.bool (match file with | some s => wfData s.data | none => true)),
       ("rename_targets", Json.arr ((renameTargets Generated.steps).map fun tc =>
         Json.arr #[Json.str tc.1, Json.str tc.2]).toArray)])
+  | "features" =>
+    -- which current features are usable on a schema (`usable` over the needs regenerated from the mappers)
+    let s ← parseSchema (← j.getObjVal? "schema")
+    pure (Json.mkObj [
+      ("usable", Json.mkObj ((usableEach s Generated.features).map fun p => (p.1, Json.bool p.2))),
+      ("all", Json.bool (allUsable s Generated.features)),
+      ("needs", Json.mkObj (Generated.features.map fun f =>
+        (f.1, Json.arr (f.2.map fun tc => Json.arr #[Json.str tc.1, Json.str tc.2]).toArray)))])
   | s => throw s!"unknown C19 query {s}"
 
 end AF.Driver
